@@ -129,6 +129,7 @@ func decodeOp(op []int64) (layers []layerSpec, acts []act, proto int64, ok bool)
 	// at most one final status, then writes/flushes
 	phase := 0
 	pendingInfo := false
+	hijackSeen := false
 	for i, a := range acts {
 		switch a.tag {
 		case 0, 6:
@@ -157,9 +158,12 @@ func decodeOp(op []int64) (layers []layerSpec, acts []act, proto int64, ok bool)
 			}
 			phase = 2
 		case 4:
-			if i != 0 {
+			// the hijack attempt comes first, or after headers and a status (a tunnel's 200, an upgrade's 101 written through
+			// the writer before the connection is taken over), never after body bytes or a flush
+			if (i != 0 && phase > 1) || pendingInfo || hijackSeen {
 				return nil, nil, 0, false
 			}
+			hijackSeen = true // what follows is the rest of the response, used when hijacking is impossible
 		}
 	}
 	if pendingInfo {
@@ -179,6 +183,7 @@ func (s *switchHandler) ServeHTTP(w http.ResponseWriter, r *http.Request) {
 }
 
 type probe struct {
+	hijacked    int32 // 1 when the handler has taken the connection over
 	invocations int32
 	flusher     int32 // 1 if the writer handed to the handler implements http.Flusher
 	hijackErr   string
@@ -218,6 +223,7 @@ func scripted(acts []act, p *probe) http.Handler {
 					p.hijackErr = err.Error()
 					continue
 				}
+				atomic.StoreInt32(&p.hijacked, 1)
 				_, _ = rw.WriteString("HTTP/1.1 299 Hijacked\r\nContent-Length: 2\r\nConnection: close\r\n\r\nhj")
 				_ = rw.Flush()
 				_ = conn.Close()
@@ -273,7 +279,11 @@ func buildStack(layers []layerSpec, inner http.Handler, prelude bool) (http.Hand
 			if prelude {
 				burst = 2 // one token for the aborted request before, one for the exchange
 			}
-			_ = rates.Add(time.Hour, 1, burst)
+			if l.intervenes == 0 && i%2 == 0 {
+				_ = rates.Add(50*time.Millisecond, 100, 100) // a short period, far from exhausted
+			} else {
+				_ = rates.Add(time.Hour, 1, burst)
+			}
 			sw := &switchHandler{}
 			sw.set(http.HandlerFunc(func(w http.ResponseWriter, r *http.Request) {}))
 			tl, err := ratelimit.New(sw, extract, rates)
@@ -496,24 +506,32 @@ func (c *stackComp) Gen(rng *rand.Rand, idx int, tier string, targeted bool) hli
 		}
 		op = append(op, hlib.B2i(rng.Intn(4) == 0)+2*hlib.B2i(rng.Intn(4) == 0)) // protocol: 0 HTTP/1.1, 1 HTTP/2; +2: after an aborted request
 		hij := rng.Intn(8) == 0
+		preStatus := false
 		if hij {
+			if rng.Intn(2) == 0 {
+				preStatus = true // a status (and headers) written through the writer first, as a tunnel or an upgrade does
+				for k := 0; k < rng.Intn(3); k++ {
+					op = append(op, 0, int64(rng.Intn(10)), int64(rng.Intn(100)))
+				}
+				op = append(op, 1, hlib.Pick(rng, 200, 200, 201))
+			}
 			op = append(op, 4) // hijack attempt; what follows is the fallback when hijacking is impossible
 		}
 		if !hij || rng.Intn(2) == 0 {
-			for k := 0; k < rng.Intn(4); k++ {
+			for k := 0; k < rng.Intn(4) && !preStatus; k++ {
 				op = append(op, 0, int64(rng.Intn(10)), int64(rng.Intn(100)))
 			}
-			if rng.Intn(3) == 0 {
+			if rng.Intn(3) == 0 && !preStatus {
 				op = append(op, 6, int64(rng.Intn(100)))
 			}
-			info := rng.Intn(6) == 0
+			info := rng.Intn(6) == 0 && !preStatus
 			if info {
 				op = append(op, 5, 103)
 				if rng.Intn(3) == 0 {
 					op = append(op, 5, 103)
 				}
 			}
-			if info || rng.Intn(3) != 0 {
+			if (info || rng.Intn(3) != 0) && !preStatus {
 				op = append(op, 1, hlib.Pick(rng, 200, 200, 201, 202, 203, 205, 400, 404, 409, 500, 502))
 			}
 			for k := 0; k < rng.Intn(4); k++ {
@@ -566,6 +584,11 @@ func (c *stackComp) Run(h *hlib.History) ([]hlib.Mon, bool) {
 			atomic.StoreInt32(&flushes, 0)
 			r = exchange(recording(top, &flushes), proto, badCookies)
 		}
+		if atomic.LoadInt32(&p.hijacked) == 1 {
+			// the handler took the connection over: what the client makes of the bytes on it is the handler's business
+			r = result{hijacked: 1, bodyHash: hashBytes(nil)}
+			atomic.StoreInt32(&flushes, 0)
+		}
 		inv := int64(atomic.LoadInt32(&p.invocations))
 		h.Obs = append(h.Obs, []int64{r.hijacked, r.status, inv, r.bodyLen, r.bodyHash, r.nh, r.hh, r.cookie, int64(atomic.LoadInt32(&flushes))})
 		add := func(format string, a ...interface{}) {
@@ -604,6 +627,10 @@ func (c *stackComp) Run(h *hlib.History) ([]hlib.Mon, bool) {
 		p0 := &probe{}
 		var flushes0 int32
 		r0 := exchange(recording(scripted(acts, p0), &flushes0), proto, badCookies)
+		if atomic.LoadInt32(&p0.hijacked) == 1 {
+			r0 = result{hijacked: 1, bodyHash: hashBytes(nil)}
+			atomic.StoreInt32(&flushes0, 0)
+		}
 		if inv != 1 {
 			add("no layer intervenes but the handler was invoked %d time(s)", inv)
 		}
